@@ -69,6 +69,13 @@ func (g *Gen) doCall(st *State, c *ssa.Call) *Val {
 		if prm := funcParamOf(cc.Value); prm != nil {
 			for _, pp := range g.spec.PureParams {
 				if pp == prm.Name() {
+					for _, dp := range g.spec.DetParams {
+						if dp == pp && isScalarKind(kindOf(c.Type())) {
+							r := &Val{K: kindOf(c.Type()), T: c.Type(), S: g.detResTerm(pp, args, kindOf(c.Type()))}
+							g.typeFacts(st, r, "true")
+							return r
+						}
+					}
 					return g.havocResult(st, c.Type(), "ret_pure_"+pp)
 				}
 			}
@@ -378,6 +385,24 @@ func (g *Gen) doCopy(st *State, c *ssa.Call, d, s *Val) *Val {
 }
 
 // ---------- calls with contracts ----------
+
+// detResTerm: the result of calling the `detfunc` parameter pp on args (an uninterpreted function of the arguments)
+func (g *Gen) detResTerm(pp string, args []*Val, rk Kind) string {
+	f := sym("detres|" + pp)
+	var as, srts []string
+	for _, a := range args {
+		if !isScalarKind(a.K) {
+			unsup("detfunc %s: non-scalar argument", pp)
+		}
+		as = append(as, a.S)
+		srts = append(srts, sortOfKind(a.K))
+	}
+	g.declareOnce(f, fmt.Sprintf("(declare-fun %s (%s) %s)", f, strings.Join(srts, " "), sortOfKind(rk)))
+	if len(as) == 0 {
+		return f
+	}
+	return "(" + f + " " + strings.Join(as, " ") + ")"
+}
 
 func (g *Gen) havocResult(st *State, t types.Type, prefix string) *Val {
 	if tu, ok := t.(*types.Tuple); ok && tu.Len() == 0 {
@@ -756,6 +781,31 @@ func (g *Gen) havocLoc(st *State, env *Env, e *SExpr) {
 			}
 			return
 		}
+		if e.Name == "all" { // all(T.f): field f of every object of struct type T becomes arbitrary
+			sel := e.Args[0]
+			if sel.Op != "sel" || sel.Args[0].Op != "ident" {
+				unsup("modifies all(T.f) expects Type.field")
+			}
+			t := g.P.resolveType(sel.Args[0].Name, env.pkg)
+			if t == nil || structOf(t) == nil {
+				unsup("modifies all(): unknown struct type %s", sel.Args[0].Name)
+			}
+			f, ok := fieldByName(t, sel.Name)
+			if !ok {
+				unsup("modifies all(): no field %s", sel.Name)
+			}
+			sfx, kinds := leafComps(f.v.Type())
+			for i, sf := range sfx {
+				name := "H|" + typeName(f.owner) + "|" + f.v.Name() + sf
+				srt := "(Array Int " + sortOfKind(kinds[i]) + ")"
+				g.setHeapSort(name, srt)
+				g.noteKind(name, kinds[i])
+				nw := g.fresh(name, srt)
+				st.heap.m[name] = nw
+				g.rangeAxiom(st.heap, name, nw)
+			}
+			return
+		}
 		unsup("modifies item %s", e)
 	default:
 		unsup("modifies item %s", e)
@@ -842,6 +892,15 @@ func (g *Gen) applyUpdates(st *State, pre *State, env *Env, sp *FuncSpec) {
 }
 
 func (g *Gen) applyUpdateList(st *State, evalSt *State, pre *State, env *Env, sp *FuncSpec, list []Update) {
+	g.applyUpdateListX(st, evalSt, pre, env, sp, list, nil)
+}
+
+// applyUpdateListEnv: like applyUpdateList, but the bodies are evaluated in a copy of env (locals, old state) re-pointed at evalSt
+func (g *Gen) applyUpdateListEnv(st *State, evalSt *State, env *Env, sp *FuncSpec, list []Update) {
+	g.applyUpdateListX(st, evalSt, nil, env, sp, list, env)
+}
+
+func (g *Gen) applyUpdateListX(st *State, evalSt *State, pre *State, env *Env, sp *FuncSpec, list []Update, proto *Env) {
 	for _, u := range list {
 		gf := g.P.ghostVar(u.Ghost)
 		if gf == nil {
@@ -850,7 +909,15 @@ func (g *Gen) applyUpdateList(st *State, evalSt *State, pre *State, env *Env, sp
 		name := "ghost|" + gf.Name
 		g.setHeapSort(name, g.P.ghostSort(gf))
 		// body evaluated in evalSt (the pre-state for `updates`) with bound params
-		benv := g.newEnv(evalSt, pre, sp.Pkg)
+		var benv *Env
+		if proto != nil {
+			c := *proto
+			c.cur = evalSt
+			c.vars = map[string]*Val{}
+			benv = &c
+		} else {
+			benv = g.newEnv(evalSt, pre, sp.Pkg)
+		}
 		for k, v := range env.vars {
 			benv.vars[k] = v
 		}
@@ -936,12 +1003,33 @@ func (g *Gen) checkCallAsserts(st *State, c *ssa.Call, args []*Val) {
 		return
 	}
 	g.callCount[name]++
+	var upds []Update
+	defer func() {
+		if len(upds) == 0 {
+			return
+		}
+		// ghost assignments at this call site: simultaneous, evaluated in the state before the call
+		env := g.specEnv(st, g.entry)
+		env.locals = true
+		env.atPos = c.Pos()
+		for k, a := range args {
+			env.vars[fmt.Sprintf("arg%d", k)] = a
+		}
+		for i := range upds {
+			upds[i].Body = g.P.expand(upds[i].Body)
+		}
+		g.applyUpdateListEnv(st, st.clone(), env, g.spec, upds)
+	}()
 	for i := range g.spec.CallAsserts {
 		ca := &g.spec.CallAsserts[i]
 		if ca.Callee != name || ca.N != g.callCount[name] {
 			continue
 		}
 		ca.bound = true
+		if ca.Upd != nil {
+			upds = append(upds, *ca.Upd)
+			continue
+		}
 		env := g.specEnv(st, g.entry)
 		env.locals = true
 		env.atPos = c.Pos()
